@@ -30,8 +30,7 @@ import Glom.Model.C01
                     instance __dict__, so reading is a plain attribute read)
       has_dict      instances of this container subclass have a __dict__: setattr
                     succeeds but the attribute is invisible to the cell (reported
-                    as a *hidden* write); under `*` such a list/tuple has no children
-                    (`_ObjStyleKeys` gives it a `keys` handler)
+                    as a *hidden* write)
       scope         the cell stands for glom's scope mapping (S-rooted paths): item
                     reads see the caller's scope variables; writes bind in a scope
                     frame that does not outlive the call (the cell is unchanged)
@@ -260,13 +259,14 @@ inductive Nest where
     dict / the `__dict__` of an object, else the items of an iterable; scalars,
     strings and everything that raises contribute nothing -/
 def children (env : MEnv) (h : Heap) (cur : Val) : List Val :=
+  let _ := env
   match cur with
   | .ref a =>
     match h[a]? with
     | some (.dict _ es) => es.map (·.2)
     | some (.inst _ as) => as.map (·.2)
-    | some (.list c xs) => if env.flag c "has_dict" then [] else xs
-    | some (.tuple c xs) => if env.flag c "has_dict" then [] else xs
+    | some (.list _ xs) => xs      -- also for subclasses with a __dict__ (the `_ObjStyleKeys` keys
+    | some (.tuple _ xs) => xs     --   handler is skipped for list / tuple / set instances)
     | some (.set _ xs) => xs
     | none => []
   | _ => []
